@@ -160,7 +160,7 @@ def build():
 
     _maps.eval_dictcomp = eval_dictcomp
     world.name_hooks.append(lambda m, n: VCls("InvalidTypes") if n == "InvalidTypes" else None)
-    A(Contract(f"{M}:ASTNode.__post_init__", params={"self": "Ref"}, globals=G, modifies=["NODE_REGISTRY"], props=["C01", "C03"],
+    A(Contract(f"{M}:ASTNode.__post_init__", params={"self": "Ref"}, globals=G, modifies=["NODE_REGISTRY", "SELF_ID", "SELF_CID"], props=["C01", "C03"],
                requires=["not config.RUNTIME_TYPE_CHECK", "SELF_ID is None", "SELF_CID is None"],
                ensures=["SELF_CID == H(ENC_cid(self), config.ID_DIGEST_SIZE)",
                         "SELF_ID is not None",
@@ -173,7 +173,7 @@ def build():
                note="content_id is the digest of ENC_cid(self), a function of the class name, the sorted comparable properties and the sorted children's content_ids only; "
                     "the id is the digest of ENC_id(self) when that key is free, otherwise a free collision-suffixed key; the node is registered under it and nothing else changes. "
                     "(type-check gate: C13; flag off in this contract)"))
-    A(Contract(f"{M}:ASTNode.__post_init__", variant_of="type-check-on", params={"self": "Ref"}, globals=G, modifies=["NODE_REGISTRY"], props=["C13"],
+    A(Contract(f"{M}:ASTNode.__post_init__", variant_of="type-check-on", params={"self": "Ref"}, globals=G, modifies=["NODE_REGISTRY", "SELF_ID", "SELF_CID"], props=["C13"],
                requires=["config.RUNTIME_TYPE_CHECK", "SELF_ID is None", "SELF_CID is None"],
                raises=[("InvalidTypes", "len(bad_fields_of(self)) > 0")], may_raise=["RuntimeError"],
                exc_ensures=["NODE_REGISTRY == old(NODE_REGISTRY)", "SELF_ID is None", "SELF_CID is None"],
